@@ -41,7 +41,7 @@ def finding_open(fid):
     return any(f.get("id") == fid and f.get("status") == "open" for f in V.load_known())
 
 
-def model_stage(ctx, stats):
+def model_stage(ctx, stats, pre=None):
     """(A): exhaustive runs.  Everything here is independent of /repo."""
     runs = []
 
@@ -63,7 +63,9 @@ def model_stage(ctx, stats):
     else:
         items = [("MC_ZNode_single_safe.cfg", 4, 900), ("MC_ZNode_leader.cfg", 4, 1200),
                  ("MC_ZNode_single_acked.cfg", 1, 300), ("MC_ZNode_follower.cfg", 6, 1800), ("MC_ZNode_single_deep.cfg", 4, 900)]
-    res = dict(V.parallel(one, items, n=len(items)))
+    pre = pre or {}
+    res = dict(V.parallel(one, [it for it in items if it[0] not in pre], n=len(items)))
+    res.update(pre)
     for cfg, _, _ in items:
         if "acked" in cfg or "deep" in cfg:
             continue
@@ -101,9 +103,10 @@ def model_stage(ctx, stats):
             if N.soften(r).timed_out:
                 ctx.skipped += 1
                 continue
-            if r.violated != MUTANTS[m]:
-                raise V.Inconclusive("spec mutant %s was not refuted by %s (got %s)" % (m, MUTANTS[m], r.violated or r.error))
-            stats["spec_mutants_refuted"].append(m)
+            if not r.violated or r.violated == "Deadlock":
+                raise V.Inconclusive("spec mutant %s was not refuted (expected %s, got %s)" % (m, MUTANTS[m], r.violated or r.error))
+            # (with several workers TLC reports whichever violated invariant it meets first)
+            stats["spec_mutants_refuted"].append(m if r.violated == MUTANTS[m] else "%s (by %s)" % (m, r.violated))
     stats["model_runs"] = runs
     return res["MC_ZNode_single_safe.cfg"], labels
 
@@ -233,6 +236,13 @@ def run(ctx):
         add("p3l-mem-" + pick[2], 3, "mem", "point", ["-point", pick[2], "-victim", "leader", "-k", "2"])
         add("p1-pebble-" + pick[3], 1, "pebble", "point", ["-point", pick[3]], iso=(pick[3] in SNAP))
         add("p1-pebble-snap", 1, "pebble", "point", ["-point", SNAP[ctx.seed % len(SNAP)]], iso=True)
+        # two crashes in a row at different hooks, one per incarnation (never snap.file twice: known finding)
+        hooks2 = RAFT + APPLY + SNAP + ["kill"]
+        for i in range(2):
+            a, b = rnd.sample(hooks2, 2)
+            add("chain1-%d-%s-%s" % (i, a, b), 1, "mem", "chain", ["-chain", "%s,%s" % (a, b), "-ops", "40"])
+        a, b = rnd.sample(RAFT + APPLY + ["kill"], 2)
+        add("chain3-%s-%s" % (a, b), 3, "mem", "chain", ["-chain", "%s,%s" % (a, b), "-ops", "40", "-victim", "any"])
         add("rand1-mem", 1, "mem", "random", ["-cycles", "3"])
         # optimized_fsync: the WAL is flushed to the OS but not fsynced on most saves; a process kill must lose nothing
         add("rand1-mem-optfsync", 1, "mem", "random", ["-cycles", "3", "-optfsync"])
@@ -255,14 +265,24 @@ def run(ctx):
             # two crashes in a row at different hooks (never snap.file twice: known finding)
             a, b = rnd.sample(RAFT + APPLY + SNAP + ["kill"], 2)
             add("chain1-%d" % i, 1, engines[i % 2], "chain", ["-chain", "%s,%s" % (a, b), "-ops", "40"])
+        for i in range(8):      # the 2-crash general corpus
+            a, b = rnd.sample(RAFT + APPLY + SNAP + ["kill"], 2)
+            add("chain1x-%d-%s-%s" % (i, a, b), 1, engines[i % 2], "chain", ["-chain", "%s,%s" % (a, b), "-ops", "40"])
+        for i in range(4):
+            a, b = rnd.sample(RAFT + APPLY + ["kill"], 2)
+            add("chain3x-%d-%s-%s" % (i, a, b), 3, engines[i % 2], "chain",
+                ["-chain", "%s,%s" % (a, b), "-ops", "40", "-victim", ["leader", "follower"][i % 2]])
 
-    # ---- (A) model runs, in a thread next to the scenarios ---------------------------
+    # ---- (A) model runs: the small refuted instance first (its counterexample is the schedule of
+    # stage isolate-s2), the exhaustive ones in a thread next to the scenarios ------------------
     import threading
     mres = {}
+    acked_res = V.tlc(ctx, "MC_ZNode", "MC_ZNode_single_acked.cfg", workers=1, timeout=300, tag="mc-MC_ZNode_single_acked")
+    labels0 = N.action_labels(acked_res.out) if acked_res.violated == "AckedDurable" else []
 
     def mrun():
         try:
-            mres["ok"] = model_stage(ctx, stats)
+            mres["ok"] = model_stage(ctx, stats, pre={"MC_ZNode_single_acked.cfg": acked_res})
         except Exception as ex:      # re-raised below in the main thread
             mres["err"] = ex
     mt = threading.Thread(target=mrun)
@@ -313,38 +333,36 @@ def run(ctx):
                                                       if f.endswith(".log")][:8],
                          script={"crashsim": s["args"][2:]})
 
-    par = 6 if ctx.quick() else 8
-    for r in V.parallel(do, sc, n=par):
-        account(*r)
-    ctx.log("general corpus: %d scenarios, %d accepted, %d rejected, %d skipped" % (
-        stats["scenarios"], stats["accepted"], stats["rejected"], ctx.skipped))
-
-    mt.join()
-    if "err" in mres:
-        raise mres["err"]
-    r1, labels = mres["ok"]
-
-    # ---- isolate stages: recorded findings' triggers produced on purpose --------------
-    hs = hold_script(labels)
+    # ---- isolate / strict stages with a fixed schedule, run together with the general corpus --------
+    hs = hold_script(labels0)
     iso = []
     if hs:
         a = ["-vnode", vnode, "-n", "1", "-engine", "mem", "-kind", "hold", "-point", hs["point"], "-seed", str(ctx.seed)]
         if not hs["waitack"]:
             a.append("-waitack=false")
         iso.append(dict(name="isolate-s2", n=1, engine="mem", kind="hold", args=a))
-    iso += isoc     # pebble replicas that take checkpoints (c14-pebble-checkpoint-release-timer)
+    iso += isoc
     iso.append(dict(name="isolate-orphans", n=1, engine="mem", kind="chain",
                     args=["-vnode", vnode, "-n", "1", "-engine", "mem", "-kind", "chain", "-chain", "snap.file,snap.file,snap.file",
                           "-ops", "60", "-pre", "45", "-walseg", "512", "-seed", str(ctx.seed)] + (["-weak"] if weak else [])))
+    isonames = set(x["name"] for x in iso)
     stats["isolate"] = {}
-    for r in V.parallel(do, iso, n=par):
-        s, summ, tr, v, d = r
-        before = len(ctx.known)
-        account(*r)
-        if summ is not None and v is not None:
-            stats["isolate"][s["name"]] = dict(reproduced=not v["accepted"], summary_notes=summ.get("notes"),
-                                               schedule=s["args"][6:])
     stats["s2_replay"] = hs
+
+    par = 8
+    for r in V.parallel(do, sc + iso, n=par):
+        account(*r)
+        s_, summ, tr, v, d = r
+        if s_["name"] in isonames and summ is not None and v is not None:
+            stats["isolate"][s_["name"]] = dict(reproduced=not v["accepted"], summary_notes=summ.get("notes"),
+                                                schedule=s_["args"][6:])
+    ctx.log("corpus + stages: %d scenarios, %d accepted, %d rejected, %d skipped" % (
+        stats["scenarios"], stats["accepted"], stats["rejected"], ctx.skipped))
+
+    mt.join()
+    if "err" in mres:
+        raise mres["err"]
+    r1, labels = mres["ok"]
 
     # ---- self-test of the binding (thorough): corrupted good traces must be rejected ----
     if not ctx.quick():
